@@ -39,12 +39,11 @@ def cellList : Val → List Val
   | .tuple xs => xs
   | v => [v]
 
-/-- `lens(*values)`: the common length other than 1 (`ValueError` if there are two) -/
+/-- `lens(*values)`: the common length other than 1 (`ValueError` if there are two different ones) -/
 def lensOf (ns : List Nat) : Res Nat :=
-  match (ns.filter (· ≠ 1)).eraseDups with
+  match ns.filter (· ≠ 1) with
   | [] => .ok (if ns.isEmpty then 0 else 1)
-  | [n] => .ok n
-  | _ => .error .value
+  | n :: rest => if rest.all (· == n) then .ok n else .error .value
 
 /-- `dictable(row)` for one record: list cells expanded, scalars broadcast -/
 def expandRow (row : List (String × Val)) : Res VTable := do
